@@ -207,7 +207,7 @@ def run(ctx: Ctx) -> None:
         for r1, r2, d in CORPUS:
             cases.append({"family": "corpus", "k": 0, "x1": f2hex(0.0), "y1": f2hex(0.0), "r1": f2hex(r1),
                           "x2": f2hex(d), "y2": f2hex(0.0), "r2": f2hex(r2)})
-    for _ in range(ctx.n(8000, 200000)):
+    for _ in range(ctx.n(40000, 800000)):
         cases.append(gen_case(ctx.rng))
     process(ctx, cases)
     ctx.assumptions.append("radii positive and finite, no overflow/underflow of r*d (scales 1e-6…1e6); NaN/inf inputs are outside the property")
